@@ -31,6 +31,7 @@ func runC05(p *core.Prog, r *core.Report) {
 	c07R1(p, r, "C05.R8")
 	// a connection reset in the middle of the session is retried, not answered by giving up the only host (shared with C12.R10)
 	transportRetryRule(p, r, "C05.R9")
+	readKeepsSourceRule(p, r, "C05.R10")
 }
 
 // afterFailureRule: when the last upload step failed, the upload is over. The function cancels the
@@ -934,4 +935,48 @@ func reachesRawQuery(v ssa.Value) bool {
 		}
 	}
 	return false
+}
+
+// readKeepsSourceRule: reading to the end does not end the stream's life. The upload rewinds its
+// source after it has read it completely (the single PUT that is sent again, the fall-back to a
+// chunked transfer); a blob reader that closes the underlying file or response as soon as it has seen
+// the end of the stream leaves nothing to rewind.
+func readKeepsSourceRule(p *core.Prog, r *core.Report, rule string) {
+	r.Rule(rule, "reading to the end keeps the source open: nothing that the blob reader's Read or Seek calls (two levels, package types/blob) invokes Close on a value loaded from a field of the reader (a source closed at end of stream cannot be rewound for the resend or the chunked fall-back)", 2)
+	br := p.Named("types/blob", "BReader")
+	if br == nil {
+		r.MissingAnchor(rule, "types/blob.BReader")
+		return
+	}
+	for _, name := range []string{"Read", "Seek"} {
+		fn := p.MethodOf(br, name)
+		if fn == nil {
+			r.MissingAnchor(rule, "types/blob.(*BReader)."+name)
+			continue
+		}
+		bad := ""
+		for _, f := range sortedFuncs(unitFuncs(fn, 2, nil)) {
+			if pk := core.FuncPkg(f); pk == nil || pk.Path() != modPath("types/blob") {
+				continue
+			}
+			core.Calls(f, func(c ssa.CallInstruction) {
+				cc := c.Common()
+				// the reader's own Close (which closes the source)
+				if g := core.CalleeFn(c); g != nil && g.Name() == "Close" && core.FuncPkg(g) != nil && core.FuncPkg(g).Path() == modPath("types/blob") {
+					bad = p.FuncName(f) + " at " + p.Pos(c.Pos()) + " (through " + p.FuncName(g) + ")"
+					return
+				}
+				if !cc.IsInvoke() || cc.Method.Name() != "Close" {
+					return
+				}
+				for _, o := range core.Origins(cc.Value, core.SliceOpts{}) {
+					if o.Kind == core.OField {
+						bad = p.FuncName(f) + " at " + p.Pos(c.Pos())
+					}
+				}
+			})
+		}
+		r.Check(bad == "", rule, p.FuncName(fn), "source stays open", p.Pos(fn.Pos()),
+			"the underlying source is closed in "+bad+": a file-backed blob cannot be sought back to its start afterwards, so a resent PUT or the chunked fall-back fails although the input was well-formed")
+	}
 }
